@@ -27,10 +27,11 @@ pub fn corr(run: &mut Run) {
     let mut rng = run.rng("corr");
     let n = run.tier.scale(140, 1500);
     let jts = [ciphercore_base::graphs::JoinType::Inner, ciphercore_base::graphs::JoinType::Left, ciphercore_base::graphs::JoinType::Union, ciphercore_base::graphs::JoinType::Full];
-    let n_heavy = run.tier.scale(6, 40);
+    let n_dir = run.tier.scale(8, 48);
+    let n_heavy = n_dir + run.tier.scale(20, 120);
     for it in 0..(n + n_heavy) {
-        let heavy = it % 12 == 0 || it < n_heavy;
-        let fam = match catch(|| if it < n_heavy { if it % 6 < 4 { join_family(&mut rng, &jts[it % 6..it % 6 + 1]) } else { sort_family(&mut rng) } } else { gen_family(&mut rng, heavy) }) {
+        let heavy = it % 12 == 0 || it < n_dir;
+        let fam = match catch(|| if it < n_heavy { match it % 8 { _ if it >= n_dir => bilinear_family(&mut rng), 0..=3 => join_family(&mut rng, &jts[it % 8..it % 8 + 1]), 4 | 5 => sort_family(&mut rng), _ => assoc_iterate_family(&mut rng) } } else { gen_family(&mut rng, heavy) }) {
             Ok(Ok(f)) => f,
             _ => {
                 run.count("gen:failed");
@@ -48,11 +49,17 @@ pub fn corr(run: &mut Run) {
                 continue;
             }
         };
-        let n_cfg = if heavy { 1 } else { 2 };
-        for _ in 0..n_cfg {
-            let ins: Vec<IOStatus> = fam.in_types.iter().map(|_| gen_status(&mut rng)).collect();
+        let all_modes = fam.name == "assoc_iterate" || fam.name == "call_iterate";
+        let n_cfg = if all_modes { 3 } else if fam.name == "bilinear" { 4 } else if heavy { 1 } else { 2 };
+        for ci in 0..n_cfg {
+            let mut ins: Vec<IOStatus> = fam.in_types.iter().map(|_| gen_status(&mut rng)).collect();
+            if fam.name == "bilinear" {
+                // public x private, private x public, private x private, shared x public
+                let pr = IOStatus::Party(rng.below(3));
+                ins = match ci { 0 => vec![IOStatus::Public, pr], 1 => vec![pr, IOStatus::Public], 2 => vec![pr, IOStatus::Party(rng.below(3))], _ => vec![IOStatus::Public, IOStatus::Shared] };
+            }
             let outs = gen_outputs(&mut rng);
-            let mode = rng.below(3) as u8;
+            let mode = if all_modes { ci as u8 } else { rng.below(3) as u8 };
             let cfg = config_name(&ins, &outs, mode);
             let cc = match catch(|| compile(&fam.ctx, &ins, &outs, mode)) {
                 Ok(Ok(c)) => c,
